@@ -44,8 +44,12 @@ namespace GeographicLib {
       throw GeographicErr("Equatorial radius is not positive");
     if (!(isfinite(_b) && _b > 0))
       throw GeographicErr("Polar semi-axis is not positive");
-    fill(_c, _c + Lmax * AUXNUMBER * AUXNUMBER,
-         numeric_limits<real>::quiet_NaN());
+    // Fill all the series coefficients now.  Filling them on demand inside the
+    // const members Convert and DConvert is a data race if the object is
+    // shared between threads (e.g., Rhumb::WGS84()).
+    for (int auxout = 0; auxout < AUXNUMBER; ++auxout)
+      for (int auxin = 0; auxin < AUXNUMBER; ++auxin)
+        fillcoeff(auxin, auxout, ind(auxout, auxin));
   }
 
   /// \cond SKIP
@@ -71,8 +75,12 @@ namespace GeographicLib {
       throw GeographicErr("Equatorial radius is not positive");
     if (!(isfinite(_b) && _b > 0))
       throw GeographicErr("Polar semi-axis is not positive");
-    fill(_c, _c + Lmax * AUXNUMBER * AUXNUMBER,
-         numeric_limits<real>::quiet_NaN());
+    // Fill all the series coefficients now.  Filling them on demand inside the
+    // const members Convert and DConvert is a data race if the object is
+    // shared between threads (e.g., Rhumb::WGS84()).
+    for (int auxout = 0; auxout < AUXNUMBER; ++auxout)
+      for (int auxin = 0; auxin < AUXNUMBER; ++auxin)
+        fillcoeff(auxin, auxout, ind(auxout, auxin));
   }
   /// \endcond
 
